@@ -5,6 +5,7 @@ import (
 	"go/constant"
 	"go/token"
 	"go/types"
+	"os"
 	"sort"
 	"strconv"
 	"strings"
@@ -14,12 +15,16 @@ import (
 
 // FnA bundles per-function analysis state.
 type FnA struct {
-	w  *World
-	fn *ssa.Function
-	sh *Shaper
+	w    *World
+	fn   *ssa.Function
+	sh   *Shaper
+	unit *unitInfo // non-nil when private single-call-site helpers are folded in (w.AU)
 }
 
 func (w *World) A(fn *ssa.Function) *FnA {
+	if os.Getenv("GVERIF_UNITS") != "" {
+		return w.AU(fn)
+	}
 	return &FnA{w: w, fn: fn, sh: w.Shaper(fn)}
 }
 
@@ -30,11 +35,31 @@ type Edge struct {
 
 // Instrs iterates over all instructions of the function.
 func (a *FnA) Instrs(f func(ssa.Instruction)) {
-	for _, b := range a.fn.Blocks {
-		for _, i := range b.Instrs {
-			f(i)
+	if a.unit == nil {
+		for _, b := range a.fn.Blocks {
+			for _, i := range b.Instrs {
+				f(i)
+			}
+		}
+		return
+	}
+	// folded helpers are visited where they are called (after the call instruction itself)
+	byCall := map[ssa.Instruction]*frame{}
+	for _, fr := range a.unit.frames {
+		byCall[fr.call] = fr
+	}
+	var visit func(fn *ssa.Function, depth int)
+	visit = func(fn *ssa.Function, depth int) {
+		for _, b := range fn.Blocks {
+			for _, i := range b.Instrs {
+				f(i)
+				if fr := byCall[i]; fr != nil && depth < 5 {
+					visit(fr.fn, depth+1)
+				}
+			}
 		}
 	}
+	visit(a.fn, 0)
 }
 
 func callCommon(i ssa.Instruction) *ssa.CallCommon {
@@ -75,6 +100,9 @@ func (a *FnA) Returns() []*ssa.Return {
 	var out []*ssa.Return
 	a.Instrs(func(i ssa.Instruction) {
 		if r, ok := i.(*ssa.Return); ok {
+			if r.Parent() != a.fn {
+				return // a folded helper's return continues in the anchor
+			}
 			if b := r.Block(); b.Comment == "recover" && len(b.Preds) == 0 {
 				return // synthetic recover block of functions with defers
 			}
@@ -140,8 +168,26 @@ func (a *FnA) IfEdges(pattern string, holds bool, filter func(Bind) bool) (edges
 
 // IfEdgesB is IfEdges with pattern variables bound in advance to given shapes.
 func (a *FnA) IfEdgesB(pattern string, holds bool, pre Bind, filter func(Bind) bool) (edges []Edge, ifs []*ssa.If) {
-	pat := NormPred(ParsePattern(pattern))
-	for _, b := range a.fn.Blocks {
+	return a.ifEdgesPat(ParsePattern(pattern), holds, pre, filter, 0, nil)
+}
+
+// ifEdgesPat finds the If edges on which the pattern predicate has the value
+// `holds`. Besides Ifs that test the predicate directly it follows predicate
+// and validator helpers of the repository (depth <= 2): for `if helper(x)` /
+// `if err := helper(x); err != nil`, the outcome of the helper establishes the
+// predicate when, inside the helper, every return that can produce that
+// outcome lies behind an edge on which the (parameter-translated) predicate
+// has the wanted value, or returns the predicate itself.
+//
+// conv (nil at depth 0) renders a shape of this function in the terms of the
+// function the pattern was written for (parameters replaced by the arguments
+// of the call chain), so patterns, bindings and filters need no translation.
+func (a *FnA) ifEdgesPat(patShape *Shape, holds bool, pre Bind, filter func(Bind) bool, depth int, conv func(*Shape) *Shape) (edges []Edge, ifs []*ssa.If) {
+	pat := NormPred(patShape)
+	if conv == nil {
+		conv = func(s *Shape) *Shape { return s }
+	}
+	for _, b := range a.blocks() {
 		if len(b.Instrs) == 0 {
 			continue
 		}
@@ -149,28 +195,188 @@ func (a *FnA) IfEdgesB(pattern string, holds bool, pre Bind, filter func(Bind) b
 		if !ok || len(b.Succs) != 2 || b.Succs[0] == b.Succs[1] {
 			continue
 		}
-		cond := NormPred(a.sh.Of(ifi.Cond))
+		cond := NormPred(conv(a.sh.Of(ifi.Cond)))
 		bind := Bind{}
 		for k, v := range pre {
 			bind[k] = v
 		}
 		same, ok := MatchPred(pat, cond, bind)
-		if !ok {
+		if ok && (filter == nil || filter(bind)) {
+			// cond TRUE  => pattern predicate is `same`
+			// we want the edge where pattern predicate == holds
+			succ := 1
+			if same == holds {
+				succ = 0
+			}
+			edges = append(edges, Edge{b, succ})
+			ifs = append(ifs, ifi)
 			continue
 		}
-		if filter != nil && !filter(bind) {
+		if depth >= 2 {
 			continue
 		}
-		// cond TRUE  => pattern predicate is `same`
-		// we want the edge where pattern predicate == holds
-		succ := 1
-		if same == holds {
-			succ = 0
+		for _, succ := range a.helperOutcomeEdges(ifi, patShape, holds, pre, filter, depth, conv) {
+			edges = append(edges, Edge{b, succ})
+			ifs = append(ifs, ifi)
 		}
-		edges = append(edges, Edge{b, succ})
-		ifs = append(ifs, ifi)
 	}
 	return
+}
+
+// condCall decomposes an If condition of the forms helper(..), !helper(..),
+// helper(..)#k, helper(..) == nil, helper(..)#k != nil into the call, the result
+// index and the helper outcome that makes the condition true.
+func condCall(v ssa.Value) (call *ssa.Call, idx int, whenTrue string) {
+	neg := false
+	for {
+		u, ok := v.(*ssa.UnOp)
+		if !ok || u.Op != token.NOT {
+			break
+		}
+		neg = !neg
+		v = u.X
+	}
+	kind := "bool"
+	if bo, ok := v.(*ssa.BinOp); ok && (bo.Op == token.EQL || bo.Op == token.NEQ) {
+		var other ssa.Value
+		if k, ok := bo.Y.(*ssa.Const); ok && k.IsNil() {
+			other = bo.X
+		} else if k, ok := bo.X.(*ssa.Const); ok && k.IsNil() {
+			other = bo.Y
+		}
+		if other == nil {
+			return nil, 0, ""
+		}
+		if bo.Op == token.NEQ {
+			neg = !neg
+		}
+		kind = "nil"
+		v = other
+	}
+	idx = 0
+	if ex, ok := v.(*ssa.Extract); ok {
+		idx = ex.Index
+		v = ex.Tuple
+	}
+	c, ok := v.(*ssa.Call)
+	if !ok || c.Call.IsInvoke() || c.Call.StaticCallee() == nil {
+		return nil, 0, ""
+	}
+	if kind == "bool" {
+		if neg {
+			return c, idx, "false"
+		}
+		return c, idx, "true"
+	}
+	if neg {
+		return c, idx, "nonnil"
+	}
+	return c, idx, "nil"
+}
+
+func (a *FnA) helperOutcomeEdges(ifi *ssa.If, patShape *Shape, holds bool, pre Bind, filter func(Bind) bool, depth int, conv func(*Shape) *Shape) []int {
+	call, idx, whenTrue := condCall(ifi.Cond)
+	if call == nil {
+		return nil
+	}
+	callee := call.Call.StaticCallee()
+	if callee.Blocks == nil || callee == a.fn || fnPkg(callee) == nil || !strings.HasPrefix(fnPkg(callee).Pkg.Path(), modPath) {
+		return nil
+	}
+	// shapes of the helper, rendered in the caller chain's terms: its parameters are the call's arguments
+	args := make([]*Shape, len(call.Call.Args))
+	for i, arg := range call.Call.Args {
+		args[i] = conv(a.sh.Of(arg))
+	}
+	var back func(s *Shape) *Shape
+	back = func(s *Shape) *Shape {
+		if s == nil {
+			return nil
+		}
+		if s.K == "param" {
+			for i := range args {
+				if s.S == "p"+strconv.Itoa(i) {
+					return args[i]
+				}
+			}
+		}
+		if len(s.A) == 0 {
+			return s
+		}
+		n := &Shape{K: s.K, S: s.S, F: s.F}
+		for _, c := range s.A {
+			n.A = append(n.A, back(c))
+		}
+		if n.K == "fld" && len(n.A) == 1 {
+			return mkFld(n.A[0], n.S)
+		}
+		return n
+	}
+	tpat, tpre, tfilter := patShape, pre, filter
+	fa := a.w.A(callee)
+	fEdges, _ := fa.ifEdgesPat(tpat, holds, tpre, tfilter, depth+1, back)
+	npat := NormPred(tpat)
+	var out []int
+	outcomes := []string{"true", "false"}
+	if whenTrue == "nil" || whenTrue == "nonnil" {
+		outcomes = []string{"nil", "nonnil"}
+	}
+	for _, o := range outcomes {
+		n, est := 0, true
+		for _, ret := range fa.Returns() {
+			if idx >= len(ret.Results) {
+				est = false
+				break
+			}
+			val := ret.Results[idx]
+			may, direct := false, false
+			switch o {
+			case "true", "false":
+				if k, ok := val.(*ssa.Const); ok && k.Value != nil {
+					may = k.Value.ExactString() == o
+				} else {
+					may = true
+					bind := Bind{}
+					for k, v := range tpre {
+						bind[k] = v
+					}
+					if same, ok := MatchPred(npat, NormPred(back(fa.sh.Of(val))), bind); ok && (tfilter == nil || tfilter(bind)) {
+						// val true => P == same ; val false => P == !same
+						if (o == "true" && same == holds) || (o == "false" && same != holds) {
+							direct = true
+						}
+					}
+				}
+			case "nil", "nonnil":
+				switch x := val.(type) {
+				case *ssa.Const:
+					may = x.IsNil() == (o == "nil")
+				case *ssa.MakeInterface, *ssa.Call, *ssa.Alloc:
+					may = o == "nonnil"
+				default:
+					may = true
+				}
+			}
+			if !may {
+				continue
+			}
+			n++
+			if direct {
+				continue
+			}
+			if len(fEdges) == 0 || !fa.EveryPathTakes(ret, fEdges) {
+				est = false
+			}
+		}
+		if n > 0 && est {
+			if o == whenTrue {
+				out = append(out, 0)
+			} else {
+				out = append(out, 1)
+			}
+		}
+	}
+	return out
 }
 
 // pathFacts remembers, along one explored path, the constant a phi received
@@ -373,6 +579,18 @@ func (a *FnA) EveryPathTakes(target ssa.Instruction, edgeSets ...[]Edge) bool {
 	if len(a.fn.Blocks) == 0 {
 		return false
 	}
+	if tf := target.Parent(); tf != a.fn && tf != nil {
+		// target inside a folded helper: guarded inside the helper, or at the helper's call site
+		if r := reach(tf.Blocks[0], rem); !r[target.Block()] {
+			return true
+		}
+		if a.unit != nil {
+			if fr := a.unit.by[tf]; fr != nil {
+				return a.EveryPathTakes(fr.call, edgeSets...)
+			}
+		}
+		return false
+	}
 	r := reach(a.fn.Blocks[0], rem)
 	return !r[target.Block()]
 }
@@ -401,6 +619,24 @@ func instrIndex(i ssa.Instruction) int {
 // Dominates reports whether instruction x is executed before y on every path
 // reaching y.
 func Dominates(x, y ssa.Instruction) bool {
+	if x.Parent() != y.Parent() {
+		// y inside a folded helper called from x's function (possibly through further helpers)
+		if ly := liftTo(y, x.Parent()); ly != nil {
+			return x == ly || Dominates(x, ly)
+		}
+		// x inside a folded helper entered before y: x must be passed on every way out of the helper
+		if curWorld != nil {
+			if fr := curWorld.inlineSites()[x.Parent()]; fr != nil {
+				for _, b := range x.Parent().Blocks {
+					if ret, ok := b.Instrs[len(b.Instrs)-1].(*ssa.Return); ok && !Dominates(x, ret) {
+						return false
+					}
+				}
+				return ssa.Instruction(fr.call) != y && Dominates(fr.call, y)
+			}
+		}
+		return false
+	}
 	if x.Block() == y.Block() {
 		return instrIndex(x) < instrIndex(y)
 	}
@@ -690,7 +926,10 @@ func (w *World) ResultConsts(fn *ssa.Function, idx int) *ConstSet {
 	cs := &ConstSet{}
 	seenFn := map[string]bool{}
 	var visitFn func(fn *ssa.Function, idx int)
+	var visitFnC func(fn *ssa.Function, idx, cj int, cval bool)
 	var visitVal func(sh *Shaper, v ssa.Value, seen map[ssa.Value]bool)
+	// the Return being evaluated (for tuple correlation: `if res, ok := helper(); !ok { return res }`)
+	var curRet ssa.Instruction
 	visitVal = func(sh *Shaper, v ssa.Value, seen map[ssa.Value]bool) {
 		if seen[v] {
 			return
@@ -717,8 +956,15 @@ func (w *World) ResultConsts(fn *ssa.Function, idx int) *ConstSet {
 						if len(ai.whole) == 0 {
 							cs.add("zero")
 						}
-						for _, s := range ai.whole {
-							visitVal(sh, s, seen)
+						if refs := a.Referrers(); refs != nil {
+							for _, ref := range *refs {
+								if st, ok := ref.(*ssa.Store); ok && st.Addr == ssa.Value(a) {
+									saved := curRet
+									curRet = st // the assignment is the point whose reachability matters
+									visitVal(sh, st.Val, seen)
+									curRet = saved
+								}
+							}
 						}
 						return
 					}
@@ -734,6 +980,42 @@ func (w *World) ResultConsts(fn *ssa.Function, idx int) *ConstSet {
 		case *ssa.Extract:
 			if c, ok := x.Tuple.(*ssa.Call); ok {
 				if f := c.Call.StaticCallee(); f != nil && f.Blocks != nil && strings.HasPrefix(pkgPathOf(f), modPath) {
+					// a sibling boolean result of the same call that decides whether this return is
+					// reached restricts which of the helper's returns can supply the value
+					if curRet != nil && curRet.Parent() == x.Parent() && c.Referrers() != nil {
+						a := w.A(x.Parent())
+						for _, ref := range *c.Referrers() {
+							ej, ok := ref.(*ssa.Extract)
+							if !ok || ej.Index == x.Index || ej.Type().String() != "bool" {
+								continue
+							}
+							for _, b := range x.Parent().Blocks {
+								ifi, ok := b.Instrs[len(b.Instrs)-1].(*ssa.If)
+								if !ok {
+									continue
+								}
+								cond, neg := ifi.Cond, false
+								for {
+									u, ok := cond.(*ssa.UnOp)
+									if !ok || u.Op != token.NOT {
+										break
+									}
+									neg = !neg
+									cond = u.X
+								}
+								if cond != ssa.Value(ej) {
+									continue
+								}
+								for succ := 0; succ < 2; succ++ {
+									if a.EveryPathTakes(curRet, []Edge{{b, succ}}) {
+										val := (succ == 0) != neg
+										visitFnC(f, x.Index, ej.Index, val)
+										return
+									}
+								}
+							}
+						}
+					}
 					visitFn(f, x.Index)
 					return
 				}
@@ -743,8 +1025,9 @@ func (w *World) ResultConsts(fn *ssa.Function, idx int) *ConstSet {
 			cs.Unknown = append(cs.Unknown, sh.Of(v).String())
 		}
 	}
-	visitFn = func(fn *ssa.Function, idx int) {
-		key := FuncName(fn) + "#" + string(rune('0'+idx))
+	visitFn = func(fn *ssa.Function, idx int) { visitFnC(fn, idx, -1, false) }
+	visitFnC = func(fn *ssa.Function, idx, cj int, cval bool) {
+		key := fmt.Sprintf("%s#%d/%d=%v", FuncName(fn), idx, cj, cval)
 		if seenFn[key] {
 			return
 		}
@@ -753,7 +1036,15 @@ func (w *World) ResultConsts(fn *ssa.Function, idx int) *ConstSet {
 		for _, b := range fn.Blocks {
 			for _, in := range b.Instrs {
 				if r, ok := in.(*ssa.Return); ok && idx < len(r.Results) {
+					if cj >= 0 && cj < len(r.Results) {
+						if k, ok := r.Results[cj].(*ssa.Const); ok && k.Value != nil && (k.Value.ExactString() == "true") != cval {
+							continue // this return yields the other value of the correlated result
+						}
+					}
+					saved := curRet
+					curRet = r
 					visitVal(sh, r.Results[idx], map[ssa.Value]bool{})
+					curRet = saved
 				}
 			}
 		}
